@@ -77,6 +77,7 @@ func (a *Analysis) loadExt(dst *Node, o *Object, t types.Type, at *Node) {
 	if o.Ext == ExtCFG && t != nil {
 		if _, isFunc := t.Underlying().(*types.Signature); isFunc {
 			a.addObj(dst, a.ext(ExtUSERFN), nil)
+			a.addCopy(dst, a.cfgStored())
 			return
 		}
 	}
@@ -97,7 +98,11 @@ func (c *cxStore) apply(a *Analysis, o *Object, at *Node) {
 		return
 	}
 	if o.Kind == KExt {
-		// stores into external memory are effects; the content is not tracked
+		// stores into external memory are effects; the content is not tracked, except for
+		// what the library itself puts into the configuration (wrappers around user functions)
+		if o.Ext == ExtCFG {
+			a.addCopy(a.cfgStored(), c.src)
+		}
 		return
 	}
 	a.leaves(o, c.typ, func(l *Object, lt types.Type) {
@@ -137,6 +142,10 @@ type cxMapStore struct {
 }
 
 func (c *cxMapStore) apply(a *Analysis, o *Object, at *Node) {
+	if o.Kind == KExt && o.Ext == ExtCFG && !c.key {
+		a.addCopy(a.cfgStored(), c.src)
+		return
+	}
 	if o.Kind == KFunc || o.Kind == KBox || o.Kind == KExt || o.IsArr {
 		return
 	}
@@ -208,4 +217,12 @@ func (c *cxElemLoad) apply(a *Analysis, o *Object, at *Node) {
 	a.leaves(s, c.typ, func(l *Object, lt types.Type) {
 		a.addCopy(c.dst, a.Mem(l))
 	}, 0)
+}
+
+// cfgStored collects what library code stores into the caller's configuration.
+func (a *Analysis) cfgStored() *Node {
+	if a.cfgNode == nil {
+		a.cfgNode = a.newNode(nil, "stored into Config")
+	}
+	return a.cfgNode
 }
